@@ -74,7 +74,9 @@ Theorem c09_raw_header_any_capture : forall f n hdr rate pool drops inif outif f
        a = alookup (cols (sample_base rate inif outif flen)) k \/
        exists va vr, a = Some va /\ alookup (cols (framed (sample_base rate inif outif flen) f)) k = Some vr /\ vprefix va vr) /\
     (exists k, mgetLI m cLayerStack = firstn k (map (fun x => layer_code (fst x)) (frame_layers f)) /\
-               length (mgetLI m cLayerSize) = length (mgetLI m cLayerStack)) /\
+               length (mgetLI m cLayerSize) = length (mgetLI m cLayerStack) /\
+               (* all sizes but possibly the last one -- the header the capture ends in -- are the headers' true sizes *)
+               firstn (k - 1) (mgetLI m cLayerSize) = firstn (k - 1) (map snd (frame_layers f))) /\
     (* every column written by a header that lies completely inside the capture has the complete frame's value *)
     (forall j k, (j <= length (frame_chain f))%nat ->
        (length (concat (map lhdr (firstn j (frame_chain f)))) <= length (firstn n (encode_frame f)))%nat ->
